@@ -15,7 +15,7 @@ RULE = ("Hypothesis byte-backed generator: tables of 1-300 commands (weighted 1-
         "the full alphabet A-Z a-z 0-9 + # $ @ _ % & built from stems (prefix relations, duplicates, case variants, names with a "
         "character outside the alphabet, a/z/A/Z over-represented), disabled commands and groups, implicit-write commands; "
         "tables of 255-258 commands sharing one prefix (candidate counter), implicit-write commands with equal non-implicit duplicates in both orders; 4-8 lines per case typed as exact / other case / every proper prefix / +1 char / substitution / random name x "
-        "suffix none,?,=args,=? ; command capacity from exactly ceil(n/4) upward. A case is non-trivial if some line's typed "
+        "suffix none,?,=args,=? ; an enumerated sweep of all registration orders of every <=4-command table over the +T/+TA/+TB/+TAB family (upper/lower case, first command disabled) x 8 typed names x 4 suffixes; command capacity from exactly ceil(n/4) upward. A case is non-trivial if some line's typed "
         "name is a prefix of >=2 enabled names, or equals one name while being a proper prefix of another, or the target has "
         "index >=4 in a table of >4 commands, or letter case differs between typed and registered name; distinct by case hash.")
 ASSUMPTIONS = ["all handler scripts return OK at once (invocation counts are C10's)",
@@ -209,6 +209,29 @@ def run(case, W):
     if any(dis):
         labels.add("has-disabled")
     return Result(labels=sorted(labels), nontrivial=nt)
+
+
+def _orders():
+    """every registration order of every <= 4-command table over the +T/+TA/+TB/+TAB family (handlers wrnt, one variable) x
+    typed prefix x suffix; argument tails are not valid commands"""
+    import itertools
+    fam = [b"+T", b"+TA", b"+TB", b"+TAB"]
+    for r in range(1, 5):
+        for sub in itertools.combinations(fam, r):
+            for order in itertools.permutations(sub):
+                for variant in (0, 1, 2):
+                    cmds = [S.mk_cmd(nm if variant != 1 else nm.lower(), "wrnt", [S.mk_var(S.INT, 1, S.RW, b"\x01", rcb=1, wcb=1)]) for nm in order]
+                    if variant == 2:
+                        cmds[0]["disable"] = 1
+                    inp = b""
+                    for ty in (b"+", b"+T", b"+TA", b"+TB", b"+TAB", b"+TAX", b"+t", b"+tA"):
+                        for sf in (b"", b"?", b"=5", b"=?"):
+                            inp += b"AT" + ty + sf + b"\n"
+                    yield dict(spec=S.mk_spec(cmds, input=inp, bufsz=64))
+
+
+def enumerations(tier):
+    yield "registration-orders", _orders()
 
 
 def minimise(case, W, sig):
